@@ -42,3 +42,7 @@ mut("auto_try_reset_outside_lock", "violation", "auto", AC,
     "bool async_auto_reset_event::try_reset() noexcept {\n  std::lock_guard lock{mutex_};\n",
     "bool async_auto_reset_event::try_reset() noexcept {\n",
     "try_reset() no longer takes the mutex: it can run inside a producer's set() between 'state_ = SET' and event_.set()")
+mut("v2_latch_and_drain_locks_tail_directly", "violation", "v2fine", "source/atomic_intrusive_list.cpp",
+    "    // Has items — drain them into target, then latch.\n    link* pred_link;\n    uintptr_t pred_val;\n    while (true) {\n      pred_link = sentinel_.self.load(std::memory_order_acquire);\n      if (try_lock_checking(*pred_link, sentinel_.self, pred_link, pred_val)) {\n        break;\n      }\n    }\n    UNIFEX_ASSERT(pred_val == to_value(&sentinel_));\n\n    sentinel_.self.store(nullptr, std::memory_order_relaxed);\n",
+    "    // Has items — drain them into target, then latch.\n    link* pred_link = sentinel_.self.load(std::memory_order_acquire);\n    uintptr_t pred_val = lock(*pred_link);\n    (void)pred_val;\n\n    sentinel_.self.store(nullptr, std::memory_order_relaxed);\n",
+    "latch_and_drain locks the tail link read once instead of re-checking sentinel_.self: a try_remove of the oldest waiter racing set() makes set() splice behind an unlinked node (seeded defect C16-3)")
